@@ -24,12 +24,30 @@ def abstract_of(draw):
     return [realopt.abstract_group(opt, gi, g) for gi, g in enumerate(draw["groups"])]
 
 
-def pool_map(fn, tasks):
+def pool_map(fn, tasks, fresh=False):
+    """fresh=True: every task in a newly forked process (simulated-rank worlds must not inherit anything from a previous world)."""
     if not tasks:
         return []
     ctx = mp.get_context("fork")
+    if fresh:
+        with ctx.Pool(min(POOL, len(tasks)), maxtasksperchild=1) as pool:
+            return pool.map(fn, tasks, chunksize=1)
     with ctx.Pool(min(POOL, len(tasks))) as pool:
         return pool.map(fn, tasks, chunksize=max(1, len(tasks) // (POOL * 4)))
+
+
+def sim_map(fn, tasks, is_bad):
+    """Simulated-rank tasks: fresh process per world; a world that reports a problem is executed a second time in another fresh
+    process and the problem is kept only if it shows again (real violations are deterministic functions of the task; thread-level
+    artefacts of the simulation are not)."""
+    res = pool_map(fn, tasks, fresh=True)
+    again = [i for i, r in enumerate(res) if is_bad(r)]
+    if again:
+        res2 = pool_map(fn, [tasks[i] for i in again], fresh=True)
+        for i, r2 in zip(again, res2):
+            if not is_bad(r2):
+                res[i] = dict(r2, _flaky_first_run=True)
+    return res
 
 
 def run_mc(ctx, configs, witnesses):
@@ -95,7 +113,7 @@ def exhaustive_tasks(ctx, rng, groups, depth, faults, hyper_keys, numeric=True, 
     return tasks
 
 
-def random_history(rng, draw, abstract, n_steps, faults=("fail",), hyper_keys=("mom", "b1", "wd", "lr")):
+def random_history(rng, draw, abstract, n_steps, faults=("fail",), hyper_keys=("mom", "b1", "wd", "lr"), flip=0.5):
     """Inputs only (engine T): python-side random driver with persistent masks, occasional hyper changes and faults."""
     events = []
     moves = family.hyper_moves(draw["groups"], hyper_keys) if hyper_keys else []
@@ -104,10 +122,11 @@ def random_history(rng, draw, abstract, n_steps, faults=("fail",), hyper_keys=("
         if moves and rng.random() < 0.15:
             gi, key, v = rng.choice(moves)
             events.append({"ev": "SetHyper", "g": gi, "key": key, "v": v})
-        if rng.random() < 0.5:
-            gi = rng.randrange(len(masks))
-            pi = rng.randrange(len(masks[gi]))
-            masks[gi][pi] = not masks[gi][pi]
+        if rng.random() < flip:
+            for _ in range(1 if flip <= 0.5 else rng.choice([1, 2, 3])):
+                gi = rng.randrange(len(masks))
+                pi = rng.randrange(len(masks[gi]))
+                masks[gi][pi] = not masks[gi][pi]
         outc = []
         for ab in abstract:
             go = []
@@ -197,12 +216,12 @@ def run_rt(ctx, tasks, owns, kind, control=None):
     return results, validated
 
 
-def run_histories(ctx, rng, n, make_groups, n_steps, faults, hyper_keys, owns, kind):
+def run_histories(ctx, rng, n, make_groups, n_steps, faults, hyper_keys, owns, kind, flip=0.5):
     tasks = []
     for _ in range(n):
         d = family.make_draw(rng, make_groups(rng))
         ab = abstract_of(d)
-        tasks.append((d, random_history(rng, d, ab, n_steps, faults, hyper_keys)))
+        tasks.append((d, random_history(rng, d, ab, n_steps, faults, hyper_keys, flip)))
     results = pool_map(history_task, tasks)
     traces = [tr for (_, tr, err) in results]
     idx = [i for i, tr in enumerate(traces) if tr is not None]
